@@ -122,6 +122,7 @@ class C15(Prop):
                     ('CoseKdfContext', '84' + h + '83f6f6f683f6f6f6820040', 'kdf-alg'),
                     ('Header', 'a201' + h + '410100', 'alg'), ('Header', 'a201' + h + 'f93e0000', 'alg'), ('Header', 'a203' + h + '0400', 'content-type'), ('CoseKey', 'a3010103' + h + '410100', 'key-alg'),
                     ('ClaimsSet', 'a204' + h + '410100', 'exp'), ('ClaimsSet', 'a204' + h + '186400', 'exp'), ('Header', 'a2' + h + 'f6' + '410100', 'hdr-label'), ('CoseKey', 'a301' + h + '410100' + '0300', 'kty'),
+                    ('PartyInfo', '836178' + h + 'f6', 'nonce'), ('PartyInfo', '8300' + h + 'f6', 'nonce'), ('CoseKdfContext', '8401836178' + h + 'f683f6f6f6820040', 'nonce'),
                     ('Header', 'a1186381' + h, 'extra-value'), ('CoseKey', 'a201011863' + h, 'extra-value'), ('ClaimsSet', 'a1186481' + h, 'extra-value'), ('Value', h, 'value')]
         for n in lattice + rnd:
             encs = int_encodings(n)
